@@ -30,8 +30,18 @@ def evaluate(mod, cases, tie_msgs, use_model=True):
     # model alone; the property's oracle is then evaluated on the model's observation (the model is regenerated from the source)
     iidx = [i for i, c in enumerate(cases) if not c.get("model_only")]
     impl = [None] * len(cases)
-    for i, o in zip(iidx, core.run_lines(core.harness_bin(), [lines[i] for i in iidx], timeout=tmo)):
-        impl[i] = o
+    shards = max(1, int(getattr(mod, "SHARDS", 1)))
+    if shards > 1 and len(iidx) >= 4 * shards:
+        # independent cases, several harness processes side by side (each case still runs alone inside its process)
+        import concurrent.futures as cf
+        parts = [iidx[k::shards] for k in range(shards)]
+        with cf.ThreadPoolExecutor(shards) as ex:
+            for part, outs in zip(parts, ex.map(lambda part: core.run_lines(core.harness_bin(), [lines[i] for i in part], timeout=tmo), parts)):
+                for i, o in zip(part, outs):
+                    impl[i] = o
+    else:
+        for i, o in zip(iidx, core.run_lines(core.harness_bin(), [lines[i] for i in iidx], timeout=tmo)):
+            impl[i] = o
     mlines_idx = [i for i, c in enumerate(cases) if c.get("model", True)]
     model = [None] * len(cases)
     if use_model and mlines_idx:
